@@ -64,9 +64,20 @@ CHECKS = {
              text="Decides the numeric clause: every numeral/bound parse is surfaced as an error, never unwrapped, defaulted or dropped, and parsed numbers are not narrowed. The no-panic clause over pest pairs is reported as inventory only.", ref="§5 C25"),
  "C35": dict(tech="HIR arm facts for every match on Expression::Parameter and for substitute_expr (variant coverage, recursion into Expression-typed children from ADT facts), order of substitution vs planning",
              text="Decides the only ways a parameterised run could silently differ: a defaulting evaluation arm, inexact/non-recursive substitution, or planning before substitution.", ref="§5 C35"),
+ "C12": dict(tech="HIR arm facts of the two codec functions (tag literals, constructed variants), identity-op classification of the String arm, def-use of the label argument to create_node*, serde-struct constant flow for record kinds; shared C06/C07 rules",
+             text="Decides agreement of the writer's and reader's tag tables and record kinds, identity decoding of strings, no invented label, one version per exported node, imported labels indexed. Value-level round trip (non-finite floats, __type-keyed maps) is not decided.", ref="§5 C12"),
+ "C13": dict(tech="def-use coverage of every store-mutating call in the import against the rollback's record (created_nodes), transitive write effects to find the mutators, reviewed neutral-effect exception",
+             text="Decides which mutations of a failing import are outside the rollback's reach (eight known findings: merges into existing nodes, edges between pre-existing nodes, hierarchy declarations).", ref="§5 C13"),
+ "C34": dict(tech="CHA call-graph unreachability of unseeded randomness and rayon reductions from every solve() inside the crate, sibling bound-repair rule, guarded-sampling rule (dominating lower<upper comparison over the Range's own operands)",
+             text="Decides seed-determinism prerequisites, bound repair in every solver, and that no bounds-derived half-open range is sampled unguarded (fixed). History monotonicity, dominance and fitness consistency are not decided.", ref="§5 C34"),
+ "C36": dict(tech="aggregate/arm tables of the three rio wrapper files compared per format and across formats",
+             text="Weak: decides only the wrappers' term/literal variant tables, writer vs reader. Escaping of string content is inside rio_* and not decided.", ref="§5 C36"),
 }
 
 NA = {
+ "C26": "optimality of paths, flows, spanning trees and counts is a relation between computed numbers and a mathematical definition over all graphs; nothing in the shape of the code separates a correct implementation from a subtly wrong one (no structural clause worth claiming)",
+ "C27": "numerical fixed-point iteration and tie-breaking over runtime scores; the sequential and parallel branches are two spellings of one formula whose equality is arithmetic, not structure",
+ "C30": "correctness lives in index arithmetic across sparse/dense promotion, rebase and demotion under arbitrary sequences; the only shape facts (variant-exhaustive matches) are already enforced by rustc; a proof would be deductive/bounded verification, another technique family",
 }
 
 PENDING = "check not yet built in this revision (static rule designed in DESIGN.md §5; will be claimed once it decides the tree without false alarm)"
